@@ -10,6 +10,11 @@ NOT_APPLICABLE = {
 for k in ['C01','C02','C03','C04','C05','C06','C07','C10','C11','C12','C13','C14','C15','C16','C17','C18','C19','C20']:
     NOT_APPLICABLE.setdefault(k, UNDER)
 CHECKS = {
+ 'C03': {
+  'text': 'Verus proves on the real Reader::nns_by_leaf (arbitrary count, search_k, oversampling, candidates; any database whose nodes are locally well-formed): at most count results; pairwise distinct ids; every id has an Item key in the snapshot and lies in the candidate filter; each reported distance is normalized_distance(built_distance(query, CURRENT leaf of that id), declared dimension); results are ordered nearest first (ties by id) in OrderedFloat order; the budget actually used is search_k, or count x number-of-trees saturating, times oversampling, or the metric default, saturating (assertion inside the function; Kani checks the per-metric default constants 1/1/1/1/3/3/3); no panic (unwrap_item, unreachable!, ilog2 of 0, overflow). Reader::nns starts with no budget/oversampling/filter; by_item on an unknown id returns Ok(None); by_vector rejects a wrong length (C19).',
+  'note': 'PARTIAL: budget monotonicity, unlimited-budget exactness under a filter and the by_item/by_vector equivalence are not decided (see evidence not_decided_clauses).',
+  'technique': 'Verus postconditions + loop invariants on the extracted real search function',
+ },
  'C18': {
   'text': 'Verus proves on the real prepare_changing_distance / clear_tree_nodes with two uninterpreted metrics: same metric => the database view is unchanged; different metric => metadata and every tree key of the index are removed, the item key set is unchanged, every leaf becomes Leaf(ND::new_header(v), ND::enc(v)) with v = D::dec(old) truncated to the declared dimension (header computed from the truncated vector), marks, the version record and all other indexes are untouched; hence stale() holds afterwards (need_build / Reader::open contracts of C06), and the metric names are pairwise distinct (Kani), so opening under the old metric fails after a rebuild.',
   'note': 'All ordered metric pairs are covered because both metrics are uninterpreted; the rebuild itself is the build chain (C01).',
